@@ -367,14 +367,25 @@ class Abstraction(object):
                 else:
                     inputs.append(["launch", self.ids[eid], n, par, retry])
                 exp["accepted"] = True
-            else:
-                dropped = self.dropped(eng, st, mid, "launch")
-                if not dropped:
-                    raise Unsupported("fan-out-did-not-launch")
+            elif self.dropped(eng, st, mid, "launch"):
                 fresh = len(self.ids)
                 self.ids["dropped-launch-%d" % fresh] = fresh
                 inputs.append(["launch", fresh, 1, par, 0])
                 exp["accepted"] = False
+            else:
+                # the state launched nothing: it failed before (its own Retry / Catch, or the failure of its branch), or it is
+                # a Map over an empty array, which completes in its own handler: for the enclosing attempt just another
+                # deferred handler of the branch
+                if trig is None:
+                    if st["ends"]:
+                        for status in st["ends"]:
+                            inputs.append(["topEnd", status == "SUCCEEDED"])
+                    else:
+                        return None
+                else:
+                    kont = self.kont(st, trig, mid, vb, va, b, a, eng)
+                    inputs.append(["deferred", self.ids[trig[0]], trig[1], kont])
+                    exp["accepted"] = True
         else:
             if trig is None:
                 # a top-level step: only the end of the execution concerns the model
@@ -402,7 +413,7 @@ class Abstraction(object):
             inputs.append(["echo", e[0], e[1]])
         # observable outcomes of the step
         exp["failed"], exp["succeeded"] = self.outcomes(st, b, a, eng, trig, exp.get("accepted") is False)
-        exp["partial"] = a["bm"] is None and b["bm"] is not None
+        exp["partial"] = a["bm"] is None
         exp["state"] = self.state_view(a)
         return {"inputs": inputs, "expect": exp}
 
@@ -437,8 +448,8 @@ class Abstraction(object):
         ra = (a["bm"] or {}).get(eid)
         name = self.state_name(mid)
         exited = any(t.endswith("StateExited") and n == name for t, n, _ in st["hist"])
-        if a["bm"] is None and b["bm"] is not None:
-            # the join state went away in this step: a result may have arrived first
+        if a["bm"] is None:
+            # the join state went away in this step (or was created and deleted in it): a result may have arrived first
             sd = find_state_def(self.machine, name) or {}
             terminal = bool(sd.get("End")) or sd.get("Type") in ("Succeed", "Fail")
             goes_on = any(f["op"] == "publish" and isinstance(f.get("body"), dict) and "context" in f["body"]
@@ -446,11 +457,13 @@ class Abstraction(object):
             if goes_on:
                 return ["goesOn"]
             if exited and terminal:
+                if "FAILED" in st["ends"]:
+                    raise Unsupported("join-failure")      # the last result arrived, then a join's ResultSelector / ResultPath failed
                 return ["done", 1, self.ups(eid)]
             failed = [e for t, n, e in st["hist"] if t == "ExecutionFailed"]
             if failed:
                 return ["fail", self.err(failed[0]), ["u"] * (self.depth_of(eid) + 1)]
-            if self.dropped(eng, st, mid, "deferred"):
+            if self.dropped(eng, st, mid, "deferred") or b["bm"] is None:
                 return ["goesOn"]
             return ["fail", "tt", []]            # the last Task.Terminated the tidy-up was waiting for
         arrived = None
@@ -466,8 +479,30 @@ class Abstraction(object):
                 return ["caughtOn"]
             return ["goesOn"]
         if exited or not (isinstance(arrived, dict) and arrived.get("Error")):
+            self.check_join_failure(st, eid, b, a)
             return ["done", 1, self.ups(eid)]
         return ["fail", self.err(arrived.get("Error")), self.handled(st, eid, b, a, eng, arrived.get("Error"))]
+
+    def check_join_failure(self, st, eid, b, a):
+        """a join whose last result arrived in this step but whose state was not left: its ResultSelector / ResultPath /
+        the size limit failed the state after the join — outside the model's alphabet"""
+        cur = eid
+        while cur is not None:
+            ra = (a["bm"] or {}).get(cur)
+            rb = (b["bm"] or {}).get(cur)
+            if ra is None or ra.get("terminated") is not None or not all(is_data(x) for x in ra["results"]):
+                return
+            if rb is not None and all(is_data(x) for x in rb["results"]):
+                return
+            name = self.info[cur]["name"]
+            h = st["hist"]
+            if not any(t.endswith("StateExited") and n == name and not (j > 0 and h[j - 1][0] == t[:-len("Exited")] + "Failed")
+                       for j, (t, n, _) in enumerate(h)):
+                raise Unsupported("join-failure")
+            par = self.info[cur]["parent"]
+            if par is None or not self.slot_changed_to_data(b, a, par[0], par[1]):
+                return
+            cur = par[0]
 
     def same_thread(self, stack, trig):
         return bool(stack) and "Index" in stack[-1] and (stack[-1].get("ID"), stack[-1].get("Index")) == trig
